@@ -13,6 +13,7 @@
 import MosVerif.Lemmas.GnetResp
 import MosVerif.Lemmas.Framing
 import MosVerif.Lemmas.GnetMulti
+import MosVerif.Lemmas.TranslatedC13
 import MosVerif.Generated.Facts
 namespace MosVerif.C13
 open MosVerif.Gnet
@@ -473,28 +474,23 @@ theorem zero_length_frame_quirk (dec : Bytes → Bool) (rest : Bytes) (h : dec r
 
 /-- pinned source facts the models were transcribed from -/
 theorem pins :
+    -- (the integer / boolean tests of `OnTraffic` and the admission test of `handleConn` are tied by translation:
+    -- `Lemmas/TranslatedC13`, `readBody_translated`, `readOne_translated`, `onTraffic_translated`,
+    -- `handleConn_translated`, `idleLoopB_translated`, `gnetIdleB_translated`; the pins below are calls, statement order, counts and nil tests)
     Facts.gnetfr_bufCond = "cc.buffer != nil" ∧
-    Facts.gnetfr_hdrRemains = "hdrRemains := len(cc.buffer) - cc.readN" ∧
     Facts.gnetfr_nextHdrRemains = "b, _ := c.Next(hdrRemains)" ∧
-    Facts.gnetfr_hdrDone = "cc.readN < 2" ∧
     Facts.gnetfr_msgLen = "msgLen := binary.BigEndian.Uint16(cc.buffer)" ∧
     Facts.gnetfr_bodyBuf = "cc.buffer = pool.GetBuf(int(msgLen))" ∧
-    Facts.gnetfr_bodyRemains = "bodyRemains := len(cc.buffer) - cc.readN" ∧
     Facts.gnetfr_nextBodyRemains = "b, _ := c.Next(bodyRemains)" ∧
-    Facts.gnetfr_bodyDone = "cc.readN < len(cc.buffer)" ∧
     Facts.gnetfr_unpackBuf = "m, err = dnsmsg.UnpackMsg(cc.buffer)" ∧
     Facts.gnetfr_copyCount = 2 ∧
     Facts.gnetfr_nextHdr = "hdr, _ := c.Next(2)" ∧
-    Facts.gnetfr_hdrShort = "len(hdr) < 2" ∧
     Facts.gnetfr_lenDecode = "l := int(binary.BigEndian.Uint16(hdr))" ∧
     Facts.gnetfr_nextBody = "body, _ := c.Next(l)" ∧
-    Facts.gnetfr_bodyShort = "len(body) < l" ∧
     Facts.gnetfr_unpackBody = "m, err = dnsmsg.UnpackMsg(body)" ∧
     Facts.gnetfr_errCond = "err != nil" ∧
     Facts.gnetfr_closeCount = 1 ∧
     Facts.gnetfr_ccrAdd = "ccr := cc.concurrentRequests.Add(1)" ∧
-    Facts.gnetfr_limitCond =
-      "ccr > e.maxConcurrent || e.r.limiterAllowN(cc.remoteAddr.Addr(), costTCPQuery) != nil" ∧
     Facts.gnetfr_refusedResp = "resp := mustHaveRespB(m, nil, dnsmsg.RCodeRefused, true, 0)" ∧
     Facts.gnetfr_write = "c.Write(resp)" ∧
     Facts.gnetfr_writeCount = 1 ∧
@@ -502,15 +498,12 @@ theorem pins :
     Facts.gnetfr_asyncWriteArg = "buf" ∧
     Facts.gnetfr_asyncWriteCount = 1 ∧
     Facts.gnetfr_decCount = 2 ∧
-    Facts.gnetfr_reloop = "c.InboundBuffered() > 0" ∧
     Facts.gnetfr_gotoCount = 1 ∧
     Facts.gnetfr_defaultMax = 100 ∧
     Facts.gnetfr_defaultMaxUse = "maxConcurrent = defaultMaxConcurrentRequestPreTCPConn" ∧
     Facts.tcpfr_defaultMaxUse = "maxConcurrent = defaultMaxConcurrentRequestPreTCPConn" ∧
     Facts.tcpfr_read = "m, n, err := dnsutils.ReadMsgFromTCP(br)" ∧
     Facts.tcpfr_ccAdd = "cc := concurrent.Add(1)" ∧
-    Facts.tcpfr_limitCond =
-      "cc > s.maxConcurrent || s.r.limiterAllowN(netAddr2NetipAddr(c.RemoteAddr()).Addr(), costTCPQuery) != nil" ∧
     Facts.tcpfr_refusedResp = "resp := mustHaveRespB(m, nil, dnsmsg.RCodeRefused, true, 0)" ∧
     Facts.tcpfr_refusedWriteCount = 1 ∧
     Facts.tcpfr_decCount = 2 ∧
@@ -521,8 +514,6 @@ theorem pins :
     Facts.tcpfr_deadlineCount = 1 ∧
     Facts.tcpfr_deadlineBeforeRead = 1 ∧
     Facts.tcpfr_bufferedCount = 0 ∧
-    Facts.tcpfr_busyContinue = "n == 0 && concurrent.Load() > 0 && errors.Is(err, os.ErrDeadlineExceeded)" ∧
-    Facts.gnetfr_timerBusy = "cc.concurrentRequests.Load() > 0" ∧
     Facts.gnetfr_timerRearm = "cc.idleTimer.Reset(e.idleTimeout)" ∧
     Facts.gnetfr_timerClose = "c.Close()" ∧
     Facts.tcpfr_idleFromCfg = "idleTimeout := time.Duration(cfg.IdleTimeout) * time.Second" ∧
